@@ -77,8 +77,11 @@ def budget(tier):
 
 # ---------------------------------------------------------------------------------------------------------------
 # case construction helpers (shared by the strategy and the enumeration)
-def col_new(cplx=False):
-    return {"t": "new", "cplx": bool(cplx)}
+def col_new(cplx=False, scale=1.0):
+    d = {"t": "new", "cplx": bool(cplx)}
+    if scale != 1.0:
+        d["scale"] = float(scale)     # magnitude of the column (load cases of very different size in one block)
+    return d
 
 
 def col_ref(i, coef=(1.0, 0.0)):
@@ -180,6 +183,7 @@ def strategy(tier):
     idx = st.integers(0, 40)
     col = st.one_of(
         st.builds(col_new, st.booleans()), st.builds(col_new, st.just(False)),
+        st.builds(col_new, st.booleans(), st.sampled_from([1e-9, 1e-12, 1e8])),
         st.builds(col_ref, idx, coef), st.builds(col_ref, idx, st.just([1.0, 0.0])),
         st.builds(col_combo, st.lists(idx, min_size=2, max_size=3), st.lists(coef, min_size=3, max_size=3)),
         st.just(ZERO), st.builds(unit, idx),
@@ -488,7 +492,7 @@ def check_case(case):
             t = "new"
             cs = {"cplx": False}
         if t == "new":
-            return rand_unit(rng, (n,), bool(cs.get("cplx")) and allow_cplx)
+            return rand_unit(rng, (n,), bool(cs.get("cplx")) and allow_cplx) * cs.get("scale", 1.0)
         if t == "zero":
             return np.zeros(n)
         if t == "unit":
@@ -537,7 +541,10 @@ def check_case(case):
         cols = []
         for cs in op["rhs"]["cols"]:          # references may point at earlier columns of the same block
             cols.append(np.asarray(build_col(cs)))
-            pool.append(cols[-1])
+            if cs.get("scale", 1.0) == 1.0:
+                # columns of extreme magnitude are solved but not offered for later reference: a later right-hand side
+                # combining a 1e8-sized and an O(1) column loses 8 digits by cancellation in any arithmetic
+                pool.append(cols[-1])
         B = np.stack(cols, axis=1)
         if op["rhs"].get("as_complex") and allow_cplx:
             B = B.astype(complex)
